@@ -63,6 +63,9 @@ checks = {
  "C15": ("exploration", "step-counted bounded-progress monitor after the heal of every fault schedule",
          "After faults stop: leader within a bound of candidacy rounds and stable for 20 heartbeat rounds, every member caught up within 300 exchanges, fresh write within 100 exchanges; violations carry the repeating exchange pattern of the stuck link as witness.",
          "liveness restated as bounded progress; bounds far above what a correct implementation needs here", "5/C15"),
+ "C09": ("exploration", "safety oracles of C01/C02/C07 plus configuration, election-quorum, commit-majority and future monitors under membership-change workloads",
+         "Random and choreographed membership request schedules with faults; the same online oracles as C01/C02/C07 plus membership-specific ones (see rule in the evidence).",
+         "which configuration a leader used for a particular commit is only observable as a set of candidates; the commit-majority clause accepts any of them", "5/C09"),
 }
 
 not_yet = {
